@@ -35,6 +35,26 @@ CHECKS["C08"] = dict(
     design_ref="5 C08", technique="Coq proof (induction over clock/script) + extracted-model differential correspondence under a scripted clock",
     note="chrono's TimeDelta/DateTime limits are constants of the model, measured from the pinned chrono by the harness on every run.")
 
+CHECKS["C01"] = dict(
+    text="Theorems over all byte strings, all pair lists, all 8 request kinds and option combinations: form decode of the body = RFC-required pairs, "
+         "optional ones iff supplied, scope, body credentials, redirect, extras (round trip of the WHATWG form codec proved for every byte string, hence no injection); "
+         "each library parameter exactly once; POST/Accept/Content-Type/target minus fragment; body alphabet. The extracted C01 monitor (proved to accept the model) judges the "
+         "requests the real builders hand to the HTTP client, blocking and future-based; the full request is also compared with the extracted model.",
+    design_ref="5 C01", technique="Coq proof (codec round trip by induction, structure lemmas) + extracted monitor/model vs captured requests",
+    note="url::Url serialisation and http::Uri acceptance are oracles reported by the harness per endpoint string.")
+CHECKS["C02"] = dict(
+    text="Theorems: Basic is used iff selected and a secret exists; the header payload base64-decodes, splits at the first ':' and form-decodes to exactly (id, secret) for all byte strings; "
+         "body carries neither in that case; otherwise no Authorization header, client_id once, client_secret once iff configured; target depends on the endpoint alone. "
+         "The extracted monitor reads the observed header the way a server does.",
+    design_ref="5 C02", technique="Coq proof (base64 and form codec round trips, case analysis) + extracted server-side monitor vs captured requests",
+    note="Base64/form codecs are Gallina specifications of the base64/form_urlencoded crates, tied byte-exactly on every case.")
+CHECKS["C03"] = dict(
+    text="Theorems for every endpoint split, every builder sequence and all byte strings: prefix and fragment untouched, old query bytes kept as prefix, decoded new pairs = old pairs ++ intended ++ extras, "
+         "each intended name once, optional ones iff supplied, last response type/redirect/challenge wins, scopes in insertion order, returned token = embedded state = the generator's single result. "
+         "The extracted C03 monitor judges URLs produced by the real builder; generator invocations are counted.",
+    design_ref="5 C03", technique="Coq proof (query-extension laws of the form codec, fold invariant over builder calls) + extracted monitor/model vs real authorize URLs",
+    note="The url crate's split of endpoint and result (prefix/query/fragment) is an oracle reported by the harness.")
+
 NOT_YET = {}
 
 
